@@ -149,7 +149,7 @@ func needsEnvRestore(fn string) bool {
 // (fn x hang|fatal class) instead of the engine's generic worker:fatal /
 // worker:hang, which stay reserved for deaths nobody predicted. The verdict
 // always comes from the real execution in the child, never from this table.
-func isolate(fn string, args []string) bool {
+func isolate(fn, mode string, args []string) bool {
 	if os.Getenv("C09_CHILD") != "" {
 		return false
 	}
@@ -164,16 +164,16 @@ func isolate(fn string, args []string) bool {
 		return false
 	}
 	if rule, ok := isolateRules[fn]; ok {
-		return rule(args, has)
+		return rule(mode, args, has)
 	}
 	return false
 }
 
 // isolateRules is filled from what the unchanged tree was observed to do
 // (see isolate.go).
-var isolateRules = map[string]func(args []string, has func(...string) bool) bool{}
+var isolateRules = map[string]func(mode string, args []string, has func(...string) bool) bool{}
 
-const childDeadline = 3 * time.Second
+const childDeadline = 5 * time.Second
 
 // runChild executes the spec in a fresh process under a 3 GiB address-space
 // limit and returns its result, or a failure describing how it died.
@@ -282,6 +282,15 @@ func poolNames() []string {
 
 func enumFuncs(tier string, emit func(string)) {
 	fns := allFunctions()
+	if one := os.Getenv("C09_FN"); one != "" { // development aid, see bound()
+		var keep []fnInfo
+		for _, f := range fns {
+			if f.name == one {
+				keep = append(keep, f)
+			}
+		}
+		fns = keep
+	}
 	all := poolNames()
 	pairs := quickPairNames
 	if tier == engine.Thorough {
@@ -347,7 +356,7 @@ func execFunc(spec string) (res engine.Result) {
 		return
 	}
 	sigPrefix := "fn=" + fn
-	if isolate(fn, args) {
+	if isolate(fn, mode, args) {
 		return runChild(spec, sigPrefix, callText(fn, mode, args))
 	}
 	leave := enter(needsEnvRestore(fn))
